@@ -38,7 +38,7 @@ def run_design(ctx):
             ("Batching/lengths0", MOD, "Batching_lengths0_%s.cfg" % t, BUCKET_ACTIONS, 2 if t == "quick" else 6),
             ("BatchingCollate/zero", CMOD, "BatchingCollate_zero_%s.cfg" % t, ["Collate"], 2 if t == "quick" else 6),
             # the loaders of the ranks of a torch.distributed job (DistLoader.tla reused, C14's clauses on top)
-            ("BatchingDist", DISTMOD, "BatchingDist_%s.cfg" % t, DIST_ACTIONS, 4 if t == "quick" else 8)]
+            ("BatchingDist", DISTMOD, "BatchingDist_%s.cfg" % t, DIST_ACTIONS, 6 if t == "quick" else 8)]
     results, errs = {}, []
 
     def job(name, mod, cfg, _actions, workers):
